@@ -487,8 +487,38 @@ def oracle_peek(c):
     return out
 
 
+def oracle_json(c):
+    out = []
+    created = set()
+    for i, (op, o) in enumerate(zip(c["ops"], c["obs"])):
+        where = "op %d (%s, %s store)" % (i, op["op"], c.get("kind"))
+        if op["op"] == "cjson":
+            want = sha(seg_bytes(op.get("b")))
+            if o["t"] != "key" or o["key"] != want:
+                out.append(("createjson-returned-a-key-that-is-not-the-sha256-of-the-marshalled-value", where))
+            else:
+                created.add(want)
+        elif op.get("h") == 1:        # read back what CreateJSON stored
+            if o["t"] != "bool" or not o.get("v"):
+                out.append(("readjson-did-not-give-the-stored-value-back", "%s: %s" % (where, o)))
+        elif op.get("h") == 0:        # absent key
+            if o["t"] != "notfound":
+                out.append(("readjson-of-an-absent-key-did-not-say-not-found", "%s: %s" % (where, o)))
+        elif op.get("h") == 2:        # an object that is not JSON
+            if o["t"] in ("bool", "notfound", "key"):
+                out.append(("readjson-accepted-an-object-that-is-not-json", "%s: %s" % (where, o)))
+        elif op.get("h") == 3:        # the first value is decoded, the rest of the object is ignored
+            if o["t"] != "bool" or not o.get("v"):
+                out.append(("readjson-did-not-decode-the-leading-value", "%s: %s" % (where, o)))
+    if c.get("final") is not None:
+        check_ls(c["final"], None, "at the end", out)
+    return out
+
+
 def impl_oracle(c):
     st = c["stream"]
+    if st == "json":
+        return oracle_json(c)
     if st == "fs-peek":
         return oracle_peek(c)
     if st.startswith("fs-"):
@@ -656,8 +686,8 @@ def run(ck):
     model_ok = all(built.get(x) for x in MODEL)
     if cases and model_ok:
         # a shard is one Coq file; its text is cut into literals short enough for Coq's stack
-        # megabyte contents and contract-breaking readers: oracle only
-        corr_cases = [c for c in cases if c["stream"] not in ("fs-peek", "cr-contract", "cr-huge")]
+        # megabyte contents, contract-breaking readers, encoding/json: oracle only
+        corr_cases = [c for c in cases if c["stream"] not in ("fs-peek", "cr-contract", "cr-huge", "json")]
         texts = [to_text(c) for c in corr_cases]
         parts = []
         cur, cur_n, cur_start = [], 0, 0
